@@ -359,6 +359,66 @@ def main():
             group_level(res, glob, parts, ident, name)
             part_level(res, glob, parts, ident, f"mesh={name}", law, sorted({rng.randint(0, N - 1) for _ in range(3)}))
 
+    # ---------------- ONE simulation walked over the parts (simu.mesh = part), and a per-element field handed to each part ----------------
+    # strips of equal-sized parts: all parts share the number of nodes of the global mesh and the element types, and several have the
+    # same number of elements - nothing but the connectivity tells them apart; and small parts have as many elements as Gauss points
+    for et, dom_, size_, Nparts in (("QUAD4", (10.0, 1.0), 1.0, 3), ("QUAD4", (8.0, 2.0), 1.0, 4), ("TRI3", (6.0, 3.0), 1.0, 3), ("TRI6", (4.0, 1.0), 1.0, 3)):
+        identS = dict(elemType=et, domain=list(dom_), meshSize=size_, Nproc=Nparts)
+        try:
+            domS = Domain(Point(0, 0), Point(*dom_), size_)
+            globS = Mesher().Mesh_2D(domS, [], ElemType(et), isOrganised=True)
+            partsS = PartMesher(Nparts).Mesh_2D(domS, [], ElemType(et), isOrganised=True)
+            kfield = 1.0 + 0.5 * np.arange(globS.Ne) / globS.Ne + 0.25 * np.cos(np.arange(globS.Ne))     # one conductivity per element of the global mesh
+            cfield = 2.0 + np.sin(np.arange(globS.Ne))
+
+            def thermal_on(mesh_):
+                ge_ = np.asarray(mesh_.groupElem._globalElements) if hasattr(mesh_.groupElem, "_globalElements") and mesh_ is not globS else np.arange(globS.Ne)
+                st_ = Simulations.Thermal(mesh_, Models.Thermal(kfield[ge_], cfield[ge_]))
+                st_.rho = 1.5
+                return st_
+            sg_ = thermal_on(globS)
+            Kg_, Cg_ = (A.toarray() for A in sg_.Get_K_C_M_F()[:2])
+            lawS = Models.Elastic.Isotropic(2, E=10.0, v=0.25, planeStress=True, thickness=1.0)
+            KgE = Simulations.Elastic(globS, lawS).Get_K_C_M_F()[0].toarray()
+            walker = None
+            sizes = []
+            for p_ in partsS:
+                r_, els_, gh_, nodes_, _ = p_.groupElem._Get_partitioned_data()
+                sizes.append(int(p_.groupElem.Ne))
+                if len(nodes_) == 0:
+                    continue
+                rows1 = np.asarray(nodes_)
+                # (a) heterogeneous coefficients handed over as field[groupElem._globalElements]
+                sp_ = thermal_on(p_)
+                Kp_, Cp_ = (A.toarray() for A in sp_.Get_K_C_M_F()[:2])
+                res.case((et, Nparts, int(r_), "per-element field on a part"))
+                nPgs = {str(mt_): int(p_.groupElem.Get_gauss(mt_).nPg) for mt_ in ("rigi", "mass")}
+                for nm_, Ap_, Ag_ in (("K", Kp_, Kg_), ("C", Cp_, Cg_)):
+                    if not (np.abs(Ap_[rows1] - Ag_[rows1]).max() <= 1e-9 * np.abs(Ag_).max()):
+                        res.fail(f"{nm_} rows differ on owned dofs with a per-element coefficient field elem={et}",
+                                 f"rank {r_} (Ne = {p_.groupElem.Ne} elements, Gauss points {nPgs}): the {nm_} of a Thermal simulation on the part, with the conductivity / capacity of ITS elements "
+                                 f"(field[groupElem._globalElements]), differs from the global {nm_} on the owned rows by {np.abs(Ap_[rows1] - Ag_[rows1]).max() / np.abs(Ag_).max():.2e}", dict(identS, rank=int(r_), Ne=int(p_.groupElem.Ne)))
+                        break
+                # (b) one simulation object reused for every part
+                if walker is None:
+                    walker = Simulations.Elastic(p_, lawS)
+                else:
+                    walker.mesh = p_
+                res.case((et, Nparts, int(r_), "one simulation walked over the parts"))
+                try:
+                    Kw_ = walker.Get_K_C_M_F()[0].toarray()
+                except Exception as ex:  # noqa: BLE001
+                    res.fail(f"one simulation walked over the parts raises elem={et}", f"rank {r_}: {type(ex).__name__}: {str(ex)[:150]}", dict(identS, rank=int(r_), sizes=sizes))
+                    break
+                dofs2 = (rows1[:, None] * 2 + np.arange(2)).ravel()
+                if not (np.abs(Kw_[dofs2] - KgE[dofs2]).max() <= 1e-9 * np.abs(KgE).max()):
+                    res.fail(f"K rows differ on owned dofs when one simulation is walked over the parts elem={et}",
+                             f"rank {r_} (part sizes so far {sizes}): K of the simulation after simu.mesh = part differs from the global K on the owned rows by "
+                             f"{np.abs(Kw_[dofs2] - KgE[dofs2]).max() / np.abs(KgE).max():.2e}", dict(identS, rank=int(r_), sizes=sizes))
+                    break
+        except Exception as ex:  # noqa: BLE001
+            res.fail(f"strip scenario raises elem={et}", f"{type(ex).__name__}: {str(ex)[:200]}", identS)
+
     # ---------------- meshes with several element types of the main dimension ----------------
     for label, name, mk, Ns in (("mixed element types", "TRI3 square glued to a recombined square (QUAD4 + TRI3), h = 2.5", mesh_tri_glued_to_recombined, (2, 4)),
                                 ("mesh=revolve touching the axis", "Mesh_Revolve of Domain((0,0),(2,2),1.0) about the y-axis, 360 degrees, 8 layers, HEXA8 (PRISM6 + HEXA8)", mesh_revolve_on_axis, (3,))):
